@@ -576,6 +576,12 @@ def gen_dag_spec(tape, max_nodes=9, allow_stochastic_observed=True):
         kind = tape.choice('node_kind', kinds)
         name = '%s%d' % ({'const': 'c', 'prior': 'p', 'op': 'o', 'sim': 'y', 'sum': 's',
                           'disc': 'd'}[kind], i)
+        # upper-case and digit-leading names sort BEFORE the internal '_' nodes, lower-case after
+        style = tape.choice('name_style', ['lower', 'lower', 'upper', 'digit'])
+        if style == 'upper':
+            name = name.upper()
+        elif style == 'digit':
+            name = '%d%s' % (i, name[0])
         node = {'name': name, 'kind': kind}
         if kind == 'const':
             node['value'] = float(tape.int('const_value', 1, 12)) * 0.25
